@@ -89,6 +89,7 @@ def extract (s : St) (old : Data) (touched : List Nat) : Data :=
 def touchedOf (s : St) (ws : List String) : List Nat :=
   match ws with
   | ["set", o, _, _] => (parseNat? o).toList
+  | ["poke", o, _, _] => (parseNat? o).toList
   | ["init", o, _, _] => (parseNat? o).toList
   | ["exit", objs, _] => (parseNatList? objs).getD []
   | ["deepcopy", objs] => (List.range ((parseNatList? objs).getD []).length).map (· + s.next)
@@ -119,6 +120,9 @@ def stepLine (s : St) (ws : List String) : St × String :=
           let r := setP s o x v
           (r.1, (if r.2 then "ok " else "reject ") ++ showObj r.1 cacheKeys o ++ " d" ++ toString (r.1.dassigned x))
         else bad
+      | _, _, _ => bad
+  | ["poke", o, x, v] => match parseNat? o, parseNat? x, parseNat? v with
+      | some o, some x, some v => if inR s [o] then let t := pokeP s o x v; (t, "ok " ++ showObj t cacheKeys o) else bad
       | _, _, _ => bad
   | ["cache", o, k, v] => match parseNat? o, parseNat? k, parseNat? v with
       | some o, some k, some v => if inR s [o] then let t := setCache s o k v; (t, "ok " ++ showObj t cacheKeys o) else bad
